@@ -403,6 +403,20 @@ Inductive sorted_v : vtree -> Prop :=
 | sorted_VMissing : sorted_v VMissing
 | sorted_VNode i cs : sorted_names (names cs) -> Forall (fun nc => sorted_v (snd nc)) cs -> sorted_v (VNode i cs).
 
+(* what the FILTERED tree signature determines of a tree: everything except the record of the root directory itself
+   (FilteredDirectoryContents carries no record; the records of all other directories are in their parents' tokens) *)
+Inductive same_beneath : vtree -> vtree -> Prop :=
+| sb_missing : same_beneath VMissing VMissing
+| sb_dir i j cs : isdir i = true -> isdir j = true -> same_beneath (VNode i cs) (VNode j cs)
+| sb_other i cs : isdir i = false -> same_beneath (VNode i cs) (VNode i cs).
+
+(* the database state right after a clean build of an already sorted tree *)
+Fixpoint fresh_s (v : vtree) : stree :=
+  match v with
+  | VMissing => SMissing
+  | VNode i cs => SNode i i (map (fun nc : bytes * vtree => (fst nc, fresh_s (snd nc))) cs)
+  end.
+
 (* no name twice in a directory *)
 Inductive nodup_v : vtree -> Prop :=
 | nodup_VMissing : nodup_v VMissing
